@@ -195,6 +195,9 @@ class SymbolKindTable:
                         % (name, phase_name,
                             repr(kind),
                             repr(tbl[name])))
+                    # Keeping whichever kind was seen first would make the
+                    # table depend on the statement order.
+                    raise
                 else:
                     if tbl[name] != kind:
                         self._changed = True
